@@ -39,7 +39,12 @@ def opt_parts(ctx, v):
     if isinstance(v, Enum):
         return simplify(v.disc == bv64(1)), (v.vars['Some'][0] if 'Some' in v.vars else None)
     if isinstance(v, Lazy):
-        return v.disc == bv64(1), v.kid('Some.0')
+        from .engine import norm_lazy
+        inner = None
+        if v.ty:
+            mm = re.match(r'^(?:std::option::)?Option<(.*)>$', v.ty.strip(), re.S)
+            if mm: inner = mm.group(1)
+        return v.disc == bv64(1), norm_lazy(v.kid('Some.0', inner))
     if isinstance(v, Opaque):
         raise EngineError('Option view of opaque value ' + v.name)
     raise EngineError(f'opt_parts of {v!r}')
@@ -130,7 +135,7 @@ def m_deref(ctx):
 def m_asref(ctx): return ctx.ret(ctx.args[0])
 @model(r'^(?:std::string::)?String::as_str$|^(?:std::string::)?String::as_mut_str$|^<String as .*>::as_str$|KebabString::as_str$|KebabStr::as_str$|^std::path::PathBuf::as_path$')
 def m_as_str(ctx): return ctx.ret(ctx.args[0])
-@model(r'^<(?:str|String|&str|&String|&&str) as (?:ToString|ToOwned|Clone)>::(?:to_string|to_owned|clone)$|^<String as From<&(?:mut )?(?:str|String)>>::from$|^<str as Into<String>>::into$|^<&str as Into<String>>::into$|^core::str::<impl str>::to_owned$|^<&str as Into<Box<str>>>::into$')
+@model(r'^<(?:str|String|std::string::String|&str|&String|&&str) as (?:ToString|ToOwned|Clone)>::(?:to_string|to_owned|clone)$|^<String as From<&(?:mut )?(?:str|String)>>::from$|^<str as Into<String>>::into$|^<&str as Into<String>>::into$|^core::str::<impl str>::to_owned$|^<&str as Into<Box<str>>>::into$')
 def m_to_string(ctx): return ctx.ret(as_str(ctx, ctx.args[0]))
 @model(r'^<(?:&)?(?:u8|u16|u32|u64|usize|i8|i16|i32|i64|isize|bool|char) as Clone>::clone$')
 def m_clone_scalar(ctx): return ctx.ret(ctx.deref(ctx.args[0]))
@@ -188,8 +193,14 @@ def m_str_get(ctx):
     okc = And(ULE(a, b), ULE(b, v.len), is_boundary(v, a), is_boundary(v, b))
     return ctx.ret(opt(okc, substr(v, a, b)))
 
-@model(r'^<(?:&|&mut )*(?:str|String) as PartialEq(?:<(?:&|&mut )*(?:str|String)>)?>::(eq|ne)$|^core::str::<impl PartialEq.*>::(eq|ne)$|^<String as PartialEq<&str>>::(eq|ne)$|^<&str as PartialEq<String>>::(eq|ne)$|^<str as PartialEq<String>>::(eq|ne)$')
+@model(r'^<(?:&|&mut )*(?:str|(?:std::string::)?String) as PartialEq(?:<(?:&|&mut )*(?:str|(?:std::string::)?String)>)?>::(eq|ne)$|^core::str::<impl PartialEq.*>::(eq|ne)$|^<String as PartialEq<&str>>::(eq|ne)$|^<&str as PartialEq<String>>::(eq|ne)$|^<str as PartialEq<String>>::(eq|ne)$')
 def m_str_eq(ctx):
+    if ctx.eng.atom_strings:
+        from .containers import to_atom, Atom
+        x = ctx.deref(ctx.args[0]); y = ctx.deref(ctx.args[1])
+        if isinstance(x, (Lazy, Atom)) and isinstance(y, (Lazy, Atom)):
+            e = to_atom(ctx.eng, x).t == to_atom(ctx.eng, y).t
+            return ctx.ret(Not(e) if ctx.callee.endswith('::ne') else e)
     a = as_str(ctx, ctx.args[0]); b = as_str(ctx, ctx.args[1]); e = str_eq(a, b)
     return ctx.ret(Not(e) if ctx.callee.endswith('::ne') else e)
 
@@ -392,7 +403,7 @@ def m_int_maxmin(ctx):
 
 NOISE = (r'^(?:core::fmt::|std::fmt::)?(?:rt::)?Arguments::<.*>::(?:new|new_const|new_v1|new_v1_formatted|from_str)(?:::<.*>)?$|^(?:core::fmt::rt::|std::fmt::rt::)?Argument::<.*>::new_\w+(?:::<.*>)?$'
          r'|^(?:alloc::fmt::|std::fmt::)?format$|^alloc::fmt::format::format_inner$|^(?:std::fmt::)?format::\{.*$|^must_use::<.*>$|^std::hint::must_use::<.*>$|^core::hint::must_use::<.*>$'
-         r'|^anyhow::__private::format_err$|^anyhow::Error::msg::<.*>$|^anyhow::__private::must_use$|^anyhow::Error::(?:new|from)::<.*>$|^<anyhow::Error as From<.*>>::from$'
+         r'|^anyhow::[^<].*$|^<anyhow::Error as From<.*>>::from$'
          r'|^log::__private_api::\w+(?:::<.*>)?$|^log::max_level$|^log::__private_api::loc$')
 @model(NOISE)
 def m_noise(ctx):
@@ -493,3 +504,11 @@ def m_sourcespan_offset(ctx): return ctx.ret(ctx.term(ctx.deref(ctx.args[0]).f[0
 def m_sourcespan_len(ctx): return ctx.ret(ctx.term(ctx.deref(ctx.args[0]).f[1] if isinstance(ctx.deref(ctx.args[0]), Agg) else ctx.deref(ctx.args[0]).kid('1', 'usize'), 'usize'))
 @model(r'^<(?:miette::)?SourceSpan as Clone>::clone$')
 def m_sourcespan_clone(ctx): return ctx.ret(ctx.deref(ctx.args[0]))
+
+# ---------------------------------------------------------------------------- panics
+
+@model(r'^(?:core::panicking::|std::panicking::|std::rt::)?(?:panic|panic_fmt|panic_display|panic_explicit|panic_nounwind|unreachable_display|assert_failed|assert_failed_inner|begin_panic|panic_bounds_check|panic_const::\w+|unwrap_failed|expect_failed|panic_str_2015|panic_cold_explicit)(?:::<.*>)?$|^core::option::(?:unwrap_failed|expect_failed)$|^core::result::unwrap_failed$|^core::slice::index::\w+_fail$|^core::str::slice_error_fail$')
+def m_panic(ctx):
+    msg = ''
+    if ctx.argstrs and ctx.argstrs[0].startswith('const "'): msg = ': ' + ctx.argstrs[0][6:66]
+    return ctx.panic(re.sub(r'::<.*', '', ctx.callee) + msg)
